@@ -68,10 +68,14 @@ def check_key(index: dict, country: str, code: str):
             if ko != "ok":
                 probs.append(("candidate-is-not-a-valid-BIC", b, (ko, o)))
                 continue
-            codes = o.domestic_bank_codes
-            if code not in codes or not o.exists:
+            kc, inv = lib.outcome(lambda: (o.domestic_bank_codes, o.exists))
+            if kc != "ok":
+                probs.append(("reverse-lookup-of-a-candidate-raises", {"bic": b, "code": code}, (kc, inv)))
+                continue
+            codes, exists = inv
+            if code not in codes or not exists:
                 probs.append(("candidate-does-not-invert", {"bic": b, "code": code},
-                              {"domestic_bank_codes": codes, "exists": o.exists}))
+                              {"domestic_bank_codes": codes, "exists": exists}))
     return probs
 
 
@@ -84,11 +88,12 @@ def check_bic(bic_index: dict, bic: str):
     for attr, field in (("domestic_bank_codes", "bank_code"), ("bank_names", "name"),
                         ("bank_short_names", "short_name")):
         exp = sorted({e[field] for e in es})
-        got = getattr(o, attr)
-        if got != exp:
-            probs.append((f"{attr}-differ-from-registry", exp, got))
-    if o.exists != bool(es):
-        probs.append(("exists-wrong", bool(es), o.exists))
+        kg, got = lib.outcome(lambda: getattr(o, attr))
+        if kg != "ok" or got != exp:
+            probs.append((f"{attr}-differ-from-registry", exp, (kg, got) if kg != "ok" else got))
+    ke, ex = lib.outcome(lambda: o.exists)
+    if (ke, ex) != ("ok", bool(es)):
+        probs.append(("exists-wrong", bool(es), (ke, ex)))
     return probs
 
 
